@@ -1090,6 +1090,9 @@ _ENTRY_FORMS = {
     "ones": lambda vals: {"ones": len(vals)},
     "full_like": lambda vals: {"full_like": {"id": "other", "type": "Parameter", "tensor": vals}, "tensor": 0.25},
     "tensor+dimension": lambda vals: {"tensor": vals[:1], "dimension": len(vals)},
+    # the dtype is INHERITED from the referenced parameter (the entry itself has no dtype key)
+    "full_like(float32 parameter)": lambda vals: {"full_like": {"id": "other", "type": "Parameter", "tensor": vals, "dtype": "torch.float32"}, "tensor": 0.25},
+    "zeros_like(float32 parameter)": lambda vals: {"zeros_like": {"id": "other", "type": "Parameter", "tensor": vals, "dtype": "torch.float32"}},
 }
 
 
@@ -1127,8 +1130,8 @@ def ob_codec_parameter(seed):
         for form in _ENTRY_FORMS:
             for dname in ("default", "float32", "float64"):
                 for nn in (False, True):
-                    if form == "full_like" and dname == "float32":
-                        continue  # full_like takes the dtype of the referenced parameter, not of the entry
+                    if form.startswith(("full_like", "zeros_like")) and dname != "default":
+                        continue  # *_like takes the dtype of the referenced parameter, not of the entry
                     d = _parameter_once(form, dname, nn, seed + n)
                     n += 1
                     if d:
@@ -1153,6 +1156,9 @@ def _spec_update(tree, ck):
             if tree["id"] in ck:
                 new = {k: v for k, v in tree.items() if k in ("id", "type", "dtype", "nn")}
                 new["tensor"] = ck[tree["id"]]["tensor"]
+                # "parameter values with their dtypes": the dtype the checkpoint recorded (it may have been inherited through a construction key)
+                if "dtype" in ck[tree["id"]]:
+                    new["dtype"] = ck[tree["id"]]["dtype"]
                 return new
             return tree
         return {k: _spec_update(v, ck) for k, v in tree.items()}
@@ -1407,6 +1413,11 @@ def _main_config(name, ck):
         hmc["adaptors"] = [{"id": "dass", "type": "DualAveragingStepSize", "integrator": "leap"}]
         mcmc["operators"] = [hmc]
         return [joint, mcmc]
+    if name == "MCMC+HMC+find_reasonable_step_size":
+        hmc["find_reasonable_step_size"] = True
+        hmc["adaptors"] = [{"id": "ass", "type": "AdaptiveStepSize", "integrator": "leap"}]
+        mcmc["operators"] = [hmc]
+        return [joint, mcmc]
     if name == "Optimizer+Adam+StepLR":
         return [joint, {"id": "opt", "type": "Optimizer", "algorithm": "torch.optim.Adam", "options": {"lr": 0.1}, "maximize": True, "loss": "joint",
                         "parameters": ["x"], "iterations": 12, "checkpoint": ck, "checkpoint_frequency": 4,
@@ -1414,7 +1425,8 @@ def _main_config(name, ck):
     raise KeyError(name)
 
 
-_MAIN = ["MCMC+Scaler+SlidingWindow", "MCMC+HMC+AdaptiveStepSize+MassMatrixAdaptor", "MCMC+HMC+DualAveragingStepSize", "Optimizer+Adam+StepLR"]
+_MAIN = ["MCMC+Scaler+SlidingWindow", "MCMC+HMC+AdaptiveStepSize+MassMatrixAdaptor", "MCMC+HMC+DualAveragingStepSize", "MCMC+HMC+find_reasonable_step_size",
+         "Optimizer+Adam+StepLR"]
 
 
 def _two_stage_case():
